@@ -510,6 +510,7 @@ def dcpForwardsResume : Bool :=
 inductive IEv where
   | tPause (g : Nat)
   | tResume (g : Nat)
+  | exc (assertion : Bool)   -- an exception reached the caller: `AssertionError` (true) / `KeyError` (false)
   deriving DecidableEq, Repr
 
 inductive IOp where
@@ -518,10 +519,13 @@ inductive IOp where
   | pause (sc : Nat)       -- `subchannel_pauseProducing(sc)`
   | resume (sc : Nat)      -- `subchannel_resumeProducing(sc)`
   | stopProducing (sc : Nat)
+  | opn (sc : Nat)         -- `subchannel_local_open(scid, sc)`
+  | close (sc : Nat)       -- `Manager.subchannel_closed(scid, sc)` → `Inbound.subchannel_closed(scid, sc)`
   deriving DecidableEq, Repr
 
 structure Inb where
   pausedSc : List Nat := []      -- `_paused_subchannels`
+  openSc : List Nat := []        -- keys of `_open_subchannels` (one SubChannel object per scid)
   conn : Option Nat := none      -- `_connection` (the number of the connection object)
   gen : Nat := 0                 -- connections created so far
   log : List IEv := []           -- newest first
@@ -553,12 +557,19 @@ def istep (s : Inb) : IOp → Inb
     | none => { s with pausedSc := sAdd sc s.pausedSc }
   | .resume sc => s.discard sc
   | .stopProducing sc => s.discard sc
+  | .opn sc =>
+    -- `assert scid not in self._open_subchannels`
+    if sc ∈ s.openSc then { s with log := .exc true :: s.log } else { s with openSc := sAdd sc s.openSc }
+  | .close sc =>
+    -- `assert self._open_subchannels[scid] is sc` (KeyError when not open); `del self._open_subchannels[scid]`;
+    -- `_paused_subchannels` is NOT touched: a subchannel closed while it holds a pause keeps holding it
+    if sc ∈ s.openSc then { s with openSc := sDel sc s.openSc } else { s with log := .exc false :: s.log }
 
 /-! ## driver (line protocol)
 
 ```
 o <op> [/ <op> <op> … [/ …]]      one top-level Outbound call; each `/`-segment is the script of one turn, in turn order
-i use | i stop | i p <sc> | i r <sc> | i s <sc>
+i use | i stop | i p <sc> | i r <sc> | i s <sc> | i o <sc> | i c <sc>
 op ::= w0 | w1 | P | R | S | r:<sc>:<p>:<0|1> | u:<sc> | c:<sc> | U | D | pl:<p>
 ```
 answer to `o`: `<calls since the line started, oldest first> | <state>`;
@@ -602,9 +613,10 @@ def showOut (c : Cfg) : String :=
 def showIEv : IEv → String
   | .tPause g => s!"tp{g}"
   | .tResume g => s!"tr{g}"
+  | .exc a => if a then "!AssertionError" else "!KeyError"
 
 def showInb (s : Inb) : String :=
-  s!"paused={showList (sorted s.pausedSc)} conn={match s.conn with | some g => toString g | none => "-"}"
+  s!"paused={showList (sorted s.pausedSc)} open={showList (sorted s.openSc)} conn={match s.conn with | some g => toString g | none => "-"}"
 
 structure DrvSt where
   c : Cfg := {}
@@ -616,6 +628,8 @@ def readIOp? : List String → Option IOp
   | ["p", sc] => sc.toNat?.map .pause
   | ["r", sc] => sc.toNat?.map .resume
   | ["s", sc] => sc.toNat?.map .stopProducing
+  | ["o", sc] => sc.toNat?.map .opn
+  | ["c", sc] => sc.toNat?.map .close
   | _ => none
 
 def drvStep (s : DrvSt) (line : String) : DrvSt × String :=
